@@ -11,7 +11,12 @@ BOUNDED = [dict(name='crosscheck.positions', function='LineCounter.feed/advance_
                 code=native_file('bounded/c06_positions.py'),
                 bound={'quick': 'all str/bytes texts over {a, newline} of length <= 5 x all (advance, feed) splits; 3 grammars x 2 lexers x str/bytes x texts of length <= 4 x 3 windows',
                        'thorough': 'texts of length <= 7; lexed texts of length <= 6'},
-                note='CPython cross-check of the executable contracts (engine self-test) and replay search; not counted as obligations')]
+                note='CPython cross-check of the executable contracts (engine self-test) and replay search; not counted as obligations'),
+           dict(name='standin.newline-dynamic-meta', function='_regexp_has_newline/_sre_may_match_newline (recursive walk over sre_parse output: outside the subset), xearley token coordinates end to end, PropagatePositions through ParseTreeBuilder',
+                code=native_file('bounded/c06_parse.py'),
+                bound={'quick': '31 newline-capable or newline-free atoms x 3 contexts x 2 flag sets x str/bytes x 10 probe strings through Lark.lex; 3 grammars x dynamic/dynamic_complete x str/bytes x all texts of length <= 4; 3 grammars x 4 engines x 3-4 texts for meta spans',
+                       'thorough': '31 atoms x 5 contexts x 4 flag sets; dynamic texts of length <= 5'},
+                note='bounded: stands in for the functions named; never counted as proved')]
 
 
 def _replay(model):
@@ -26,6 +31,7 @@ def register(reg):
             c.replay = _replay
 
     register_lexer(reg)
+    register_dynamic(reg)
 
 
 TXT = 'lex_state.text.text'
@@ -112,3 +118,112 @@ def register_lexer(reg):
                             'and cast(result, Token).end_pos == old(arg0.end_pos) and cast(result, Token).line == old(arg0.line) and cast(result, Token).column == old(arg0.column) '
                             'and cast(result, Token).end_line == old(arg0.end_line) and cast(result, Token).end_column == old(arg0.end_column))'])},
                  names={'Token': ('class', 'Token'), 'UnexpectedCharacters': ('class', 'UnexpectedCharacters')}, replay=_replay)
+
+
+def _nl_region(fn):
+    import ast as _ast
+    for s in _ast.walk(fn):
+        if isinstance(s, _ast.If) and "'\\n'" in _ast.unparse(s.test) and 'token' in _ast.unparse(s.test):
+            return [s]
+    return None
+
+
+def _finalise_region(fn):
+    """the statements that complete a delayed token's coordinates when the scanner reaches its last character"""
+    import ast as _ast
+    for s in _ast.walk(fn):
+        if isinstance(s, _ast.If) and _ast.unparse(s.test) == 'token is not None':
+            out = []
+            for b in s.body:
+                if isinstance(b, _ast.Assign) and isinstance(b.targets[0], _ast.Attribute) and _ast.unparse(b.targets[0].value) == 'token':
+                    out.append(b)
+                else:
+                    break
+            return out or None
+    return None
+
+
+def _newtoken_region(k):
+    def sel(fn):
+        import ast as _ast
+        hits = [s for s in _ast.walk(fn) if isinstance(s, _ast.Assign) and isinstance(s.value, _ast.Call) and _ast.unparse(s.value.func) == 'Token']
+        hits.sort(key=lambda s: (s.lineno, s.col_offset))
+        return [hits[k]] if k < len(hits) else None
+    return sel
+
+
+def register_dynamic(reg):
+    """the per-character line/column bookkeeping of the dynamic Earley lexers, for both element types of the input stream"""
+    for kind, ty, nl in (('str', 'str', "token == '\\n'"), ('bytes', 'int', 'token == 10')):
+        reg.contract('lark.parsers.xearley:Parser._parse#newline-%s' % kind, serves=['C06', 'C15'], region=_nl_region,
+                     params={'token': ty, 'text_line': 'int', 'text_column': 'int'},
+                     ghost={'ensures_fall': [
+                         # a newline character starts a new line at column 1; anything else advances the column - whatever the buffer kind
+                         'text_line == old(text_line) + (1 if %s else 0)' % nl,
+                         'text_column == (1 if %s else old(text_column) + 1)' % nl]},
+                     replay=_replay)
+
+    reg.cls('XToken', fields={'type': 'any', 'value': 'any', 'start_pos': 'opt[int]', 'line': 'opt[int]', 'column': 'opt[int]',
+                              'end_line': 'opt[int]', 'end_column': 'opt[int]', 'end_pos': 'opt[int]'})
+    reg.contract('XToken.__init__', assumed=True, kind='method',
+                 params={'self': 'XToken', 'type': 'any', 'value': 'any', 'start_pos': 'opt[int]', 'line': 'opt[int]', 'column': 'opt[int]',
+                         'end_line': 'opt[int]', 'end_column': 'opt[int]', 'end_pos': 'opt[int]'},
+                 ghost={'defaults': {'start_pos': None, 'line': None, 'column': None, 'end_line': None, 'end_column': None, 'end_pos': None}},
+                 modifies=['self'],
+                 ensures=['self.%s == %s' % (f, f) for f in ('type', 'value', 'start_pos', 'line', 'column', 'end_line', 'end_column', 'end_pos')])
+    for k, what in ((0, 'longest match'), (1, 'shorter matches of complete_lex')):
+        reg.contract('lark.parsers.xearley:Parser._parse.<locals>.scan#token%d' % k, serves=['C06'], region=_newtoken_region(k),
+                     params={'NAME': 'any', 'TEXT': 'any', 'text_line': 'int', 'text_column': 'int', 'i': 'int'},
+                     # every token the scanner creates (%s) starts at the scanner's current offset and running coordinate
+                     ghost={'ensures_fall': ['val(t.start_pos) == i', 'val(t.line) == text_line', 'val(t.column) == text_column', 't.value == TEXT']},
+                     names={'Token': ('class', 'XToken'), 'expr:item.expect.name': ('sv_env', 'NAME'), 'expr:m.group(0)': ('sv_env', 'TEXT')},
+                     replay=_replay)
+    reg.contract('lark.parsers.xearley:Parser._parse.<locals>.scan#finalise', serves=['C06'], region=_finalise_region,
+                 params={'token': 'XToken', 'text_line': 'int', 'text_column': 'int', 'i': 'int'}, modifies=['token'],
+                 # delayed_matches[i + 1] holds the tokens whose match ended at offset i + 1 (character i is their last): that offset is end_pos,
+                 # and the end coordinate is "one past character i on its own line" (the dynamic family's convention)
+                 ghost={'ensures_fall': ['token.end_pos is not None and val(token.end_pos) == i + 1',
+                                         'token.end_line is not None and val(token.end_line) == text_line',
+                                         'token.end_column is not None and val(token.end_column) == text_column + 1']},
+                 replay=_replay)
+
+    # ---- positions of tree nodes: from the first to the last child that takes up space (containers of inlined rules included)
+    POS = ('line', 'column', 'start_pos', 'end_line', 'end_column', 'end_pos', 'container_line', 'container_column', 'container_start_pos',
+           'container_end_line', 'container_end_column', 'container_end_pos')
+    # Token and Meta both carry positions; an attribute that was never set is modelled as None (dynamic: hasattr / getattr-with-default)
+    reg.cls('Positioned', fields={k: 'opt[int]' for k in POS}, dynamic=POS)
+    reg.cls('Meta', bases=['Positioned'], fields={'empty': 'any'})
+    reg.cls('PTree', fields={'meta': 'Meta'})
+    reg.cls('PropagatePositions', target='lark.parse_tree_builder:PropagatePositions', fields={'node_builder': 'any', 'node_filter': 'any'})
+    reg.specfun('FIRSTM', [('ch', 'list[any]')], 'opt[Positioned]', doc='position carrier of the first child that takes up space (token or non-empty tree)')
+    reg.specfun('LASTM', [('ch', 'list[any]')], 'opt[Positioned]')
+    reg.contract('lark.parse_tree_builder:PropagatePositions._pp_get_meta', assumed=True, kind='method', pure=True,
+                 params={'self': 'PropagatePositions', 'children': 'list[any]'}, returns='opt[Positioned]', ensures=['result == FIRSTM(children)'])
+    reg.contract('pp_last', assumed=True, pure=True, params={'children': 'list[any]'}, ghost_params=['children'], returns='opt[Positioned]', ensures=['result == LASTM(children)'])
+    C = lambda m, f, g: '(val(%s.%s) if %s.%s is not None else val(%s.%s))' % (m, f, m, f, m, g)      # container value if present, else own
+    F, Lm, R = 'val(FIRSTM(children))', 'val(LASTM(children))', 'cast(result, PTree).meta'
+    def both(carrier, res_prefix, fields, cond):
+        return ' and '.join('implies(%s, val(%s.%s%s) == old(%s))' % (cond, R, res_prefix, f, C(carrier, 'container_' + f, f)) for f in fields)
+    ST, EN = ('line', 'column', 'start_pos'), ('end_line', 'end_column', 'end_pos')
+    reg.contract('lark.parse_tree_builder:PropagatePositions.__call__', serves=['C06'], kind='method',
+                 params={'self': 'PropagatePositions', 'children': 'list[any]', 'RES': 'any'}, returns='any',
+                 requires=[  # tokens and non-empty metas that reach here carry their own coordinates (position-less Tokens are outside the property)
+                           'implies(FIRSTM(children) is not None, %s)' % ' and '.join('%s.%s is not None' % (F, f) for f in ST),
+                           'implies(LASTM(children) is not None, %s)' % ' and '.join('%s.%s is not None' % (Lm, f) for f in EN)],
+                 ghost={'callv:self.node_builder#0': dict(returns='any', assumes=['result == RES'])},
+                 modifies=['cast(RES, PTree).meta'],
+                 ensures=[
+                     'result == RES',
+                     # the container span follows the children this wrapper sees (it sits outside the child filter): widened on every call
+                     both(F, 'container_', ST, 'isinstance(result, PTree) and FIRSTM(children) is not None'),
+                     both(Lm, 'container_', EN, 'isinstance(result, PTree) and LASTM(children) is not None'),
+                     # a node without a position starts at the start of its first child's container and ends at the end of its last child's
+                     both(F, '', ST, 'isinstance(result, PTree) and FIRSTM(children) is not None and old(%s.line) is None' % R),
+                     both(Lm, '', EN, 'isinstance(result, PTree) and LASTM(children) is not None and old(%s.end_line) is None' % R),
+                     # a node that already has a position (an inlined ?rule) keeps it
+                     'implies(isinstance(result, PTree) and old(%s.line) is not None, %s)' % (R, ' and '.join('%s.%s == old(%s.%s)' % (R, f, R, f) for f in ST)),
+                     'implies(isinstance(result, PTree) and old(%s.end_line) is not None, %s)' % (R, ' and '.join('%s.%s == old(%s.%s)' % (R, f, R, f) for f in EN)),
+                     # nothing is marked non-empty unless it got a position
+                     'implies(isinstance(result, PTree) and FIRSTM(children) is None and LASTM(children) is None, %s.empty == old(%s.empty))' % (R, R)],
+                 names={'Tree': ('class', 'PTree'), 'expr:self._pp_get_meta(reversed(children))': ('contract', 'pp_last')},
+                 replay=_replay)
